@@ -357,6 +357,7 @@ def face_edge_only_strategy(tier):
         spec["geom"]["enc"] = enc
         spec["vars"] = [v for v in spec["vars"] if v["kind"] != "edge"]
         spec.pop("dim_coords", None)
+        S.without_clashing_extra(spec)
         return case
     return build()
 
